@@ -187,8 +187,20 @@ func ruleSSAColumns(p *Prog, l *Ledger, tier string) {
 	compareTables(l, rule, "event-printed-vs-read", ES, ER, "ssaEvent.string", "newSSAEventFromString", 10)
 	// columns announced by WriteToSSA
 	cols := strset{}
-	for _, b := range wr.Blocks {
+	for _, b := range p.helperBlocks(wr) {
 		for _, ins := range b.Instrs {
+			// the column list kept as a package-level []string literal (copied or read by the writer)
+			if u, ok := ins.(*ssa.UnOp); ok && u.Op == token.MUL {
+				if gl, ok := u.X.(*ssa.Global); ok && gl.Pkg == p.LibSSA {
+					if vals, ok := sliceLiteral(p.globalInit(gl.Name())); ok {
+						if ss, ok := stringsOf(vals); ok {
+							for _, c := range ss {
+								cols.add(c)
+							}
+						}
+					}
+				}
+			}
 			st, ok := ins.(*ssa.Store)
 			if !ok {
 				continue
@@ -499,7 +511,17 @@ func ruleSSALiterals(p *Prog, l *Ledger, tier string) {
 		}
 	}
 	n := 0
-	for _, fn := range []*ssa.Function{wr, info} {
+	wfns := p.Helpers(wr)
+	hasInfo := false
+	for _, f := range wfns {
+		if f == info {
+			hasInfo = true
+		}
+	}
+	if !hasInfo {
+		wfns = append(wfns, info)
+	}
+	for _, fn := range wfns {
 		for _, b := range fn.Blocks {
 			for _, ins := range b.Instrs {
 				// any string constant the writer uses (converted to bytes directly or concatenated first)
